@@ -12,4 +12,5 @@ INVARIANT GradAgree
 INVARIANT Euler
 INVARIANT Order1Linear
 PROPERTY MeaningLaw
+PROPERTY ReassignLaw
 CHECK_DEADLOCK FALSE
